@@ -9,7 +9,7 @@ from fractions import Fraction
 from harness import common, oplab
 
 ID = "C09"
-LEAN_MODULES = ["PptxModel.Props.C09", "PptxModel.Props.C09C", "PptxModel.Props.C09F"]
+LEAN_MODULES = ["PptxModel.Props.C09", "PptxModel.Props.C09C", "PptxModel.Props.C09F", "PptxModel.Props.C09A"]
 RULE = (
     "the property table of harness/oplab.py (~110 read/write properties of Presentation, slides, shapes, pictures, "
     "connectors, text frames, paragraphs, runs, fonts, lines, colours, gradient / pattern fills, tables, cells, rows, "
@@ -1048,6 +1048,101 @@ def point_order(ctx):
                     break
 
 
+def adjustment_proxies(ctx):
+    """the adjustments of ONE shape assigned through several shape proxies in turn (every `slide.shapes[i]` is a new one, each
+    with its own AdjustmentCollection): every adjustment reads the last value assigned to it - whichever proxy wrote it -
+    and the others stay, through every proxy and after save + re-open"""
+    from pptx import Presentation
+    from pptx.enum.shapes import MSO_SHAPE
+
+    rng = ctx.rng
+    kinds = [MSO_SHAPE.BLOCK_ARC, MSO_SHAPE.ROUNDED_RECTANGULAR_CALLOUT, MSO_SHAPE.LEFT_RIGHT_ARROW, MSO_SHAPE.DONUT, MSO_SHAPE.CIRCULAR_ARROW]
+    scripts = [[(0, 0, Fraction(3, 10)), (1, 1, Fraction(7, 10)), (0, 2, Fraction(1, 10))]]   # (proxy, index, value): in every run
+    for trial in range(8 if ctx.quick else 80):
+        prs = Presentation(); slide = prs.slides.add_slide(prs.slide_layouts[6])
+        kind = kinds[trial % len(kinds)]
+        slide.shapes.add_shape(kind, 0, 0, 999, 999)
+        proxies = [slide.shapes[0] for _ in range(3)]
+        n = len(proxies[0].adjustments)
+        want = [proxies[0].adjustments[i] for i in range(n)]
+        hist = []
+        script = scripts[trial] if trial < len(scripts) else [(rng.randrange(3), rng.randrange(n), Fraction(rng.randint(-20, 120), 100)) for _ in range(rng.randint(2, 8))]
+        if n < 2:
+            continue
+        for k, i, v in script:
+            i = i % n
+            proxies[k].adjustments[i] = float(v)
+            want[i] = int(float(v) * 100000.0) / 100000.0
+            hist.append((k, i, str(v)))
+            reads = {"a new proxy": [slide.shapes[0].adjustments[j] for j in range(n)]}
+            for q in range(3):
+                reads["proxy %d" % q] = [proxies[q].adjustments[j] for j in range(n)]
+            ctx.case(key=("adjustment-proxies", kind.name, tuple(hist)))
+            bad = {w: r for w, r in reads.items() if r != want}
+            if bad:
+                w, r = sorted(bad.items())[0]
+                ctx.fail("independence:adjustments-across-proxies", f"{kind.name}: assignments (proxy, index, value) {hist}: {w} reads {r}, the last values assigned are {want}",
+                         {"shape": kind.name, "history": hist})
+                break
+        else:
+            b = io.BytesIO(); prs.save(b)
+            got = Presentation(io.BytesIO(b.getvalue())).slides[0].shapes[0].adjustments
+            if [got[j] for j in range(n)] != want:
+                ctx.fail("independence:adjustments-across-proxies", f"{kind.name}: assignments {hist}: after save and re-open the adjustments read {[got[j] for j in range(n)]}, assigned {want}",
+                         {"shape": kind.name, "history": hist})
+        ctx.count("adjustment-proxy-histories")
+    # the same against `Model/Adjust` (`c09.adjs`): guides to start from that the library never writes (one missing, several
+    # under one name, names that are no adjustment of the shape), assignments through proxies in turn, an index outside
+    # the adjustments now and then; after EVERY assignment the guides as stored and every adjustment as read
+    from lxml import etree
+    from pptx.shapes.autoshape import AutoShapeType
+    A = oplab_ns()
+    lines, impl, metas = [], [], []
+    for trial in range(40 if ctx.quick else 600):
+        prs = Presentation(); slide = prs.slides.add_slide(prs.slide_layouts[6])
+        kind = rng.choice(kinds)
+        sp0 = slide.shapes.add_shape(kind, 0, 0, 999, 999)
+        prst = sp0._element.spPr.prstGeom
+        davs = AutoShapeType.default_adjustment_values(prst.prst)
+        names = [nm for nm, _ in davs] + ["zz9", "adjX"]
+        code = {nm: k for k, nm in enumerate(names)}
+        start = []
+        for _ in range(rng.choice([0, 1, 2, 3, 5])):
+            start.append((rng.choice(names), rng.choice([0, 1, 50000, 100000, -5000, rng.randint(-100000, 200000)])))
+        for ch in list(prst):
+            prst.remove(ch)
+        av = etree.SubElement(prst, "{%s}avLst" % A)
+        for nm, v in start:
+            gd = etree.SubElement(av, "{%s}gd" % A); gd.set("name", nm); gd.set("fmla", "val %d" % v)
+        proxies = [slide.shapes[0] for _ in range(2)]
+        n = len(davs)
+
+        def state():
+            gds = prst.xpath("./a:avLst/a:gd")
+            g = ",".join("%d=%s" % (code[x.get("name")], x.get("fmla")[4:]) for x in gds) or "!"
+            rd = ",".join(str(round(slide.shapes[0].adjustments[j] * 100000)) for j in range(n)) or "!"
+            return g + "|" + rd
+        outs = ["start|" + state()]
+        ops = []
+        for _ in range(rng.randint(1, 6)):
+            i = rng.choice(list(range(n)) + [n, n + 3])
+            f = Fraction(rng.randint(-40, 160), 128)
+            v = int(float(f) * 100000.0)
+            ops.append("%d:%d" % (i, v))
+            try:
+                proxies[rng.randrange(2)].adjustments[i] = float(f)
+                outs.append("ok|" + state())
+            except IndexError:
+                outs.append("I|" + state())
+        line = "c09.adjs %s %s %s" % (",".join("%d:%d" % (code[nm], d_) for nm, d_ in davs), ",".join("%d=%d" % (code[nm], v) for nm, v in start) or "!", ";".join(ops))
+        lines.append(line); impl.append(";".join(outs)); metas.append({"conv": "adjustments", "shape": kind.name, "start": start, "ops": ops})
+        ctx.case(key=line); ctx.count("adjustment-model-histories")
+    for line, i, m, meta in zip(lines, impl, ctx.driver.run(lines), metas):
+        ctx.traces += 1
+        if i != m:
+            ctx.disagree("adjustments", dict(meta, line=line), i, m)
+
+
 def oplab_ns():
     return "http://schemas.openxmlformats.org/drawingml/2006/main"
 
@@ -1307,6 +1402,7 @@ def correspond(ctx):
     fills(ctx)
     shared_relationships(ctx)
     point_order(ctx)
+    adjustment_proxies(ctx)
     rng = ctx.rng
     reps = 6 if ctx.quick else 20
     for r in range(reps):
